@@ -7,7 +7,7 @@ From Krrood Require Import Base.Sx Orm.ObjGraph Orm.Iso Orm.ObjGraphWalk Orm.Obj
 Import ListNotations.
 Local Open Scope nat_scope.
 
-Definition Pid : params := mkParams (fun c => c) (fun _ => None) false false.
+Definition Pid : params := mkParams (fun c s => (c, s)) (fun _ _ => None) (fun _ => 0) false false.
 
 Definition canon (h : heap) (n : nat) (r : addr) : option (addr * list (option obj)) :=
   match walk Pid h (S n) r st0 with
@@ -43,27 +43,42 @@ Proof.
   split; auto. intros y Hy. rewrite <- Hn in H. apply (map_eq_in _ _ _ H). apply in_seq. lia.
 Qed.
 
+(* a direction without late replacement and temporaries whose (class, scalars) transformation is the identity on the heap *)
 Lemma wf_walk_iso P l r :
-  (forall a o, heap_of l a = Some o -> p_late P (p_cmap P (ocls o)) = None) ->
-  (forall a o, heap_of l a = Some o -> p_cmap P (ocls o) = ocls o) ->
+  plain P (heap_of l) (reach (heap_of l) r) ->
+  (forall a o, heap_of l a = Some o -> p_obj P (ocls o) (oscal o) = (ocls o, oscal o)) ->
   wf_heap l r = true ->
   exists d s', walk P (heap_of l) (S (length l)) r st0 = Some (d, s') /\
     Inv P (heap_of l) (reach (heap_of l) r) s' /\ mlook r s' = Some d /\
-    (forall x y, mlook x s' = Some y -> done P (heap_of l) s' x y) /\ iso (heap_of l) r (dst s') d.
+    (forall x y, mlook x s' = Some y -> done P (heap_of l) s' x y) /\
+    bisim (krel s') (heap_of l) (dst s') /\ functional (krel s') /\ injective (krel s') /\
+    iso (heap_of l) r (dst s') d.
 Proof.
-  intros Hl Hc Hwf. destruct (wf_heap_closed l r Hwf) as [Hr Hcl].
+  intros Hpl Hc Hwf. destruct (wf_heap_closed l r Hwf) as [Hr Hcl].
   assert (HQ : forall a, reach (heap_of l) r a -> exists o, heap_of l a = Some o /\
              forall t ks k, In (t, ks) (oflds o) -> In k ks -> reach (heap_of l) r k).
   { intros a Ha. destruct (Hcl a (reach_in_keys l r a Hwf Ha)) as [o [Ho _]]. exists o. split; auto.
     intros t ks k Hf Hk. eapply reach_step; eauto. }
-  pose proof (walk_iso P (heap_of l) (keys l) (reach (heap_of l) r) HQ (fun a Ha => reach_in_keys l r a Hwf Ha) Hl Hc r (reach_root _ _)) as H.
-  unfold keys in H. rewrite map_length in H. exact H.
+  destruct (walk_total P (heap_of l) (keys l) (reach (heap_of l) r) HQ (fun a Ha => reach_in_keys l r a Hwf Ha) r (reach_root _ _))
+    as [d [s' [E [HI [_ [Hnb Hd]]]]]].
+  unfold keys in E. rewrite map_length in E.
+  destruct (Hd (Hnb (proj1 Hpl))) as [M D].
+  destruct (walk_bisim_g P (heap_of l) _ s' HI D) as [Hb [Hf Hi]].
+  assert (Hb' : bisim (krel s') (heap_of l) (dst s')).
+  { eapply bisim_g_id; [exact Hb|]. intros a b o Hab Ho. unfold fobj.
+    assert (Hqa : reach (heap_of l) r a) by (destruct HI as [_ [_ [_ [J5 _]]]]; eapply J5; exact Hab).
+    pose proof (proj1 Hpl _ _ Hqa Ho) as Hl. unfold is_late in Hl.
+    destruct (p_late P (ocls o) (oscal o)); [discriminate|]. eauto. }
+  exists d, s'. repeat (split; auto). exists (krel s'). repeat (split; auto).
 Qed.
+
+Lemma Pid_plain h Q : plain Pid h Q.
+Proof. split; intros x o _ _; reflexivity. Qed.
 
 Theorem canon_total l r : wf_heap l r = true -> canon_l l r <> None.
 Proof.
   intros Hwf. unfold canon_l, canon.
-  destruct (wf_walk_iso Pid l r (fun _ _ _ => eq_refl) (fun _ _ _ => eq_refl) Hwf) as [d [s [E _]]].
+  destruct (wf_walk_iso Pid l r (Pid_plain _ _) (fun _ _ _ => eq_refl) Hwf) as [d [s [E _]]].
   rewrite E. discriminate.
 Qed.
 
@@ -71,12 +86,11 @@ Theorem canon_eq_iso l1 r1 l2 r2 : wf_heap l1 r1 = true -> wf_heap l2 r2 = true 
   canon_l l1 r1 = canon_l l2 r2 -> iso (heap_of l1) r1 (heap_of l2) r2.
 Proof.
   intros W1 W2. unfold canon_l, canon.
-  destruct (wf_walk_iso Pid l1 r1 (fun _ _ _ => eq_refl) (fun _ _ _ => eq_refl) W1) as [d1 [s1 [E1 [I1 [M1 [D1 Iso1]]]]]].
-  destruct (wf_walk_iso Pid l2 r2 (fun _ _ _ => eq_refl) (fun _ _ _ => eq_refl) W2) as [d2 [s2 [E2 [I2 [M2 [D2 Iso2]]]]]].
+  destruct (wf_walk_iso Pid l1 r1 (Pid_plain _ _) (fun _ _ _ => eq_refl) W1) as [d1 [s1 [E1 [I1 [M1 [D1 [Hb [Hf [Hi Iso1]]]]]]]]].
+  destruct (wf_walk_iso Pid l2 r2 (Pid_plain _ _) (fun _ _ _ => eq_refl) W2) as [d2 [s2 [E2 [I2 [M2 [D2 [_ [_ [_ Iso2]]]]]]]]].
   rewrite E1, E2. intros H. inversion H as [[Hd Hl]]. subst d2.
   destruct (listing_eq _ _ Hl) as [Hn Hag].
   eapply iso_trans; [|apply iso_sym; exact Iso2].
-  destruct (walk_bisim Pid (heap_of l1) _ (fun _ _ _ => eq_refl) s1 I1 D1) as [Hb [Hf Hi]].
   exists (krel s1). split; [exact M1|]. split; [|split; auto].
   eapply bisim_agree; [exact Hb|]. intros a b Hab. symmetry. apply Hag. destruct I1 as [J1 _]. eapply J1; eauto.
 Qed.
